@@ -568,6 +568,12 @@ func (s *vStoreSys) search(h []string, q int) {
 			if s.unexplainedDrop != "" {
 				cause += "+cached-segment-dropped-by:" + s.unexplainedDrop
 			}
+			// the known finding WIPES the document from the shared template objects (it is
+			// on disk only); a document that a loaded index still holds and that the query
+			// nevertheless misses is something else
+			if cause != "" && vTemplatesHold(s.st, id, q) {
+				cause += "+the-loaded-index-objects-hold-it"
+			}
 			class := "missing-acknowledged-doc"
 			if s.mode == "c09" {
 				class = "durable-doc-lost"
